@@ -139,11 +139,16 @@ def check_limits(run, fx, rs):
     for x in hir_walk(f.hir):
         if isinstance(x, dict) and x.get("k") == "if":
             c = x["cond"]
-            if c.get("k") == "bin" and c["op"] in (">=", ">") and c["a"].get("k") == "mcall" and c["a"]["name"] == "abs":
+            if c.get("k") == "bin" and c["op"] in (">=", ">") and c["a"].get("k") == "mcall" \
+                    and c["a"]["name"] in ("abs", "unsigned_abs"):
                 r = c["a"]["recv"]
                 nm = r["res"].get("local") if r.get("k") == "path" else None
+                kb = c["b"]
+                if kb.get("k") == "mcall" and kb.get("name") in ("abs", "unsigned_abs"):
+                    kb = kb["recv"]          # magnitude of a (positive) constant
                 try:
-                    k = ev.ev(c["b"], {})
+                    k = ev.ev(kb, {})
+                    k = abs(k) if isinstance(k, int) else k
                 except Exception:
                     k = None
                 if nm:
@@ -219,4 +224,6 @@ def main(tier):
     check_guarded_call(run, fx, fadd, "is_calendar_unit", "TimeDuration::from_normalized", rule, "Duration::add/calendar-units",
                        kind="Range", guard_pass=False)
     ranges.check_balance(run, fx)
+    from ..rules import extra
+    extra.check_total_includes_days(run, fx)
     return run.finish(EXPLANATION)
